@@ -96,6 +96,9 @@ class MonteCarlo(SensitivityAnalysis):
 
         self._results = pd.DataFrame(results)
 
+        # leave the lens at its nominal prescription
+        self.tolerancing.reset()
+
     def view_histogram(self, kde=True):
         """
         Displays a histogram of the data.
